@@ -301,7 +301,21 @@ func (c *C07) invalidParams(x *engine.Ctx, t *tape.Tape, s *gtier.System, lg *[]
 		w, world := validInsertion(t, s)
 		world.Snapshot()
 		p := gtier.InsertionParams(w)
-		switch t.Draw(7) {
+		switch t.Draw(9) {
+		case 7:
+			// everything describes a valid batch except the stated input hash
+			switch t.Draw(3) {
+			case 0:
+				p.InputHash.Add(&p.InputHash, big.NewInt(1))
+			case 1:
+				p.InputHash.Set(t.BigBelow(oracle.R))
+			default:
+				p.InputHash.SetInt64(0)
+			}
+			kind, reason = "invalid-batch/input-hash-wrong", "input-hash-mismatch"
+		case 8:
+			p.IdComms = append(p.IdComms, *big.NewInt(9))
+			kind = "shape/commitments-too-long-only"
 		case 0:
 			p.IdComms = p.IdComms[:len(p.IdComms)-1]
 			kind = "shape/commitments-short"
@@ -342,7 +356,20 @@ func (c *C07) invalidParams(x *engine.Ctx, t *tape.Tape, s *gtier.System, lg *[]
 		w, world := validDeletion(t, s)
 		world.Snapshot()
 		p := gtier.DeletionParams(w)
-		switch t.Draw(7) {
+		switch t.Draw(9) {
+		case 7:
+			switch t.Draw(3) {
+			case 0:
+				p.InputHash.Add(&p.InputHash, big.NewInt(1))
+			case 1:
+				p.InputHash.Set(t.BigBelow(oracle.R))
+			default:
+				p.InputHash.SetInt64(0)
+			}
+			kind, reason = "invalid-batch/input-hash-wrong", "input-hash-mismatch"
+		case 8:
+			p.DeletionIndices = append(p.DeletionIndices, 1)
+			kind = "shape/indices-too-long-only"
 		case 0:
 			p.DeletionIndices = p.DeletionIndices[:len(p.DeletionIndices)-1]
 			kind = "shape/indices-short"
